@@ -127,3 +127,634 @@ Section Run.
     destruct (snd (step detect H legacy s o)); simpl; rewrite IH; reflexivity.
   Qed.
 End Run.
+
+(* ---------- the code after the fix (legacy = false) ---------- *)
+
+Section Fixed.
+  Variable detect : N -> option N.
+  Variable H : N -> N -> N.
+  (* the binaries and sources "in play" in a history *)
+  Variable inB : N -> Prop.
+  Variable inS : N -> Prop.
+  (* CF = "the digests are collision-free on what is in play".  It is a parameter so that
+     the statements that do not need it (the identity is current) are proved without it
+     (CF := False) by the same induction. *)
+  Variable CF : Prop.
+  Hypothesis detect_collision_free :
+    CF -> forall b1 b2 i, inB b1 -> inB b2 -> detect b1 = Some i -> detect b2 = Some i -> b1 = b2.
+  Hypothesis H_collision_free :
+    CF -> forall b1 b2 i1 i2 s1 s2, inB b1 -> inB b2 -> inS s1 -> inS s2 ->
+      detect b1 = Some i1 -> detect b2 = Some i2 -> H i1 s1 = H i2 s2 -> i1 = i2 /\ s1 = s2.
+
+  Definition fs_ok (f : fs) : Prop := forall p b m, flookup p f = Some (File b m) -> inB b.
+
+  Definition comps_ok (past : list event) (c : cmap) : Prop :=
+    forall k e, clookup k c = Some (Some e) ->
+      ce_exe e = fst k /\
+      exists ev b, In ev past /\ e_path ev = fst k /\ e_cur ev = Some (b, ce_mtime e) /\
+                   detect b = Some (ce_id e).
+
+  Definition results_ok (r : list (N * N)) : Prop :=
+    CF -> forall k prod, rlookup k r = Some prod ->
+      inB prod /\ exists id src, inS src /\ detect prod = Some id /\ k = H id src.
+
+  Definition Inv (past : list event) (s : state) : Prop :=
+    fs_ok (fsys s) /\ comps_ok past (comps s) /\ results_ok (results s).
+
+  Definition op_in_play (o : op) : Prop :=
+    match o with Swap _ b _ => inB b | Compile _ s => inS s | _ => True end.
+
+  Definition good (e : event) : Prop :=
+    identity_current detect e = true /\ (CF -> producer_current e = true) /\
+    (forall k, e_key e = Some k -> exists id, e_id e = Some id /\ k = H id (e_src e)) /\
+    (forall b m, e_cur e = Some (b, m) -> inB b) /\
+    inS (e_src e) /\
+    (e_exe e = None \/ e_exe e = Some (e_path e)) /\
+    (* a working compiler at the path is always served, keyed on its own identity *)
+    (forall b m id, e_cur e = Some (b, m) -> detect b = Some id ->
+                    served e <> None /\ e_key e = Some (H id (e_src e))).
+
+  Lemma resolve_inB n f p t b m : fs_ok f -> resolve n f p = Some (t, (b, m)) -> inB b.
+  Proof. intros F R. apply resolve_file in R. eapply F; eassumption. Qed.
+
+  Lemma fs_ok_fset_file f p b m : fs_ok f -> inB b -> fs_ok (fset p (File b m) f).
+  Proof.
+    intros F B q b' m' L. rewrite flookup_fset in L.
+    destruct (path_eqb q p); [inversion L; subst; assumption | eapply F; eassumption].
+  Qed.
+
+  Lemma fs_ok_fset_link f p t : fs_ok f -> fs_ok (fset p (Link t) f).
+  Proof.
+    intros F q b' m' L. rewrite flookup_fset in L.
+    destruct (path_eqb q p); [discriminate | eapply F; eassumption].
+  Qed.
+
+  Lemma fs_ok_fremove f p : fs_ok f -> fs_ok (fremove p f).
+  Proof.
+    intros F q b' m' L. rewrite flookup_fremove in L.
+    destruct (path_eqb q p); [discriminate | eapply F; eassumption].
+  Qed.
+
+  Lemma fs_ok_touch f p m : fs_ok f -> fs_ok (touch f p m).
+  Proof.
+    intros F. unfold touch. destruct (resolve FUEL f p) as [[t [b m0]]|] eqn:R; [|assumption].
+    apply fs_ok_fset_file; [assumption | eapply resolve_inB; eassumption].
+  Qed.
+
+  Lemma comps_ok_more past ev c : comps_ok past c -> comps_ok (past ++ [ev]) c.
+  Proof.
+    intros C k e L. destruct (C k e L) as [E [ev0 [b [I R]]]]. split; [assumption|].
+    exists ev0, b. split; [apply in_or_app; left; assumption | assumption].
+  Qed.
+
+  Lemma compiler_info_fixed c f p c' i :
+    compiler_info detect false c f p = (c', i) ->
+    match resolve FUEL f p with
+    | None => c' = c /\ i = IPanic
+    | Some (t, (b, m)) =>
+        let k := (p, if snd t =? snd p then t else p) in
+        (exists e, clookup k c = Some (Some e) /\ ce_mtime e = m /\ c' = c /\
+                   i = IOk (ce_exe e) (ce_id e) false)
+        \/ (detect b = None /\ c' = cset k None c /\ i = IErr)
+        \/ (exists id, detect b = Some id /\
+                       c' = cset k (Some {| ce_exe := p; ce_id := id; ce_mtime := m |}) c /\
+                       i = IOk p id true)
+    end.
+  Proof.
+    unfold compiler_info. destruct (resolve FUEL f p) as [[t [b m]]|]; [|intros E; inversion E; auto].
+    unfold ckey, ckey_neg. cbv zeta.
+    set (k := (p, if snd t =? snd p then t else p)).
+    assert (Redetect :
+      (match detect b with
+       | Some id => (cset k (Some {| ce_exe := p; ce_id := id; ce_mtime := m |}) c, IOk p id true)
+       | None => (cset k None c, IErr)
+       end) = (c', i) ->
+      (detect b = None /\ c' = cset k None c /\ i = IErr)
+      \/ (exists id, detect b = Some id /\
+                     c' = cset k (Some {| ce_exe := p; ce_id := id; ce_mtime := m |}) c /\
+                     i = IOk p id true)).
+    { destruct (detect b) as [id|]; intros E; inversion E; [right; exists id; auto | left; auto]. }
+    destruct (clookup k c) as [[e|]|] eqn:L.
+    - destruct (ce_mtime e =? m) eqn:M.
+      + intros E; inversion E; subst. left. exists e. apply N.eqb_eq in M. auto.
+      + intros E. right. apply Redetect; assumption.
+    - intros E. right. apply Redetect; assumption.
+    - intros E. right. apply Redetect; assumption.
+  Qed.
+
+  Lemma compile_shape l s p src s' ev :
+    compile detect H l s p src = (s', ev) ->
+    e_path ev = p /\ e_src ev = src /\ e_cur ev = stat (fsys s) p /\ fsys s' = fsys s.
+  Proof.
+    unfold compile. destruct (compiler_info detect l (comps s) (fsys s) p) as [c' i].
+    destruct i as [| |exe id det].
+    - intros E; inversion E; subst; simpl; auto.
+    - intros E; inversion E; subst; simpl; auto.
+    - destruct (stat (fsys s) exe) as [[b0 m0]|].
+      + destruct (detect b0).
+        * destruct (rlookup (H id src) (results s)); intros E; inversion E; subst; simpl; auto.
+        * intros E; inversion E; subst; simpl; auto.
+      + intros E; inversion E; subst; simpl; auto.
+  Qed.
+
+  Lemma results_ok_add r k b id src :
+    results_ok r -> inB b -> inS src -> detect b = Some id -> k = H id src ->
+    results_ok ((k, b) :: r).
+  Proof.
+    intros R B S D K cf k' prod L. simpl in L. destruct (k' =? k) eqn:E.
+    - apply N.eqb_eq in E; subst k'. inversion L; subst prod. split; [assumption|].
+      exists id, src; auto.
+    - eapply (R cf); eassumption.
+  Qed.
+
+  Lemma compile_step past s p src s' ev :
+    Inv past s -> inS src ->
+    compile detect H false s p src = (s', ev) ->
+    (forall a, In a past -> agree a ev = true) ->
+    good ev /\ Inv (past ++ [ev]) s'.
+  Proof.
+    intros [F [C R]] S Hc Hag.
+    destruct (compile_shape _ _ _ _ _ _ Hc) as [Sp [Ss [Sc Sf]]].
+    revert Hc. unfold compile.
+    destruct (compiler_info detect false (comps s) (fsys s) p) as [c' i] eqn:CI.
+    apply compiler_info_fixed in CI.
+    unfold stat in Sc. 
+    destruct (resolve FUEL (fsys s) p) as [[t [b m]]|] eqn:Rs.
+    2:{ destruct CI as [-> ->]. intros E; inversion E; subst s' ev; clear E.
+        split.
+        - unfold good, identity_current, producer_current, served; simpl.
+          split; [reflexivity|]. split; [reflexivity|]. split; [discriminate|].
+          assert (NoCur : forall b1 m1, stat (fsys s) p = Some (b1, m1) -> False).
+          { intros b1 m1 E1. unfold stat in E1. rewrite Rs in E1. discriminate. }
+          split; [intros b1 m1 E1; destruct (NoCur _ _ E1)|].
+          split; [assumption|]. split; [left; reflexivity|].
+          intros b1 m1 id1 E1; destruct (NoCur _ _ E1).
+        - split; [exact F|]. split; [apply comps_ok_more; exact C | exact R]. }
+    assert (Bb : inB b) by (eapply resolve_inB; eassumption).
+    assert (Stp : stat (fsys s) p = Some (b, m)) by (unfold stat; rewrite Rs; reflexivity).
+    set (k := (p, if snd t =? snd p then t else p)) in CI.
+    (* in every IOk case: exe = p and the identity is that of the current bytes *)
+    assert (Serve : forall id det,
+      detect b = Some id ->
+      comps_ok (past ++ [ev]) c' ->
+      (let k0 := H id src in
+       let s1 := {| fsys := fsys s; comps := c'; results := results s |} in
+       let mk ran out := {| e_path := p; e_src := src; e_cur := stat (fsys s) p; e_id := Some id;
+                            e_key := Some k0; e_detected := det; e_exe := Some p; e_ran := ran;
+                            e_out := out |} in
+       match stat (fsys s) p with
+       | None => (s1, mk None OFail)
+       | Some (b0, _) =>
+           match detect b0 with
+           | None => (s1, mk (Some b0) OFail)
+           | Some _ =>
+               match rlookup k0 (results s) with
+               | Some prod => (s1, mk (Some b0) (OHit prod))
+               | None => ({| fsys := fsys s; comps := c'; results := (k0, b0) :: results s |},
+                          mk (Some b0) (OMiss b0))
+               end
+           end
+       end) = (s', ev) ->
+      good ev /\ Inv (past ++ [ev]) s').
+    { intros id det D C'. cbv zeta. rewrite Stp, D.
+      assert (Common : forall ran out,
+        (exists q, out = OHit q \/ out = OMiss q) ->
+        (CF -> match out with OHit q | OMiss q => q = b | _ => True end) ->
+        good {| e_path := p; e_src := src; e_cur := Some (b, m); e_id := Some id;
+                e_key := Some (H id src); e_detected := det; e_exe := Some p; e_ran := ran;
+                e_out := out |}).
+      { intros ran out Sv Pr. unfold good, identity_current, producer_current, served; simpl.
+        rewrite D, N.eqb_refl.
+        split; [reflexivity|]. split.
+        { intros cf. specialize (Pr cf). destruct out; auto; subst; apply N.eqb_refl. }
+        split. { intros k1 E1; inversion E1; subst. exists id; auto. }
+        split. { intros b1 m1 E1; inversion E1; subst; assumption. }
+        split; [assumption|]. split; [right; reflexivity|].
+        intros b1 m1 id1 E1 D1. inversion E1; subst b1 m1. rewrite D in D1; inversion D1; subst id1.
+        split; [|reflexivity]. destruct Sv as [q [-> | ->]]; discriminate. }
+      destruct (rlookup (H id src) (results s)) as [prod|] eqn:L.
+      - intros E; inversion E; subst s' ev; clear E.
+        split.
+        + apply Common; [exists prod; left; reflexivity|]. intros cf.
+          destruct (R cf _ _ L) as [Bp [id' [src' [S' [D' K']]]]].
+          destruct (H_collision_free cf b prod id id' src src' Bb Bp S S' D D' K') as [-> ->].
+          eapply (detect_collision_free cf); eassumption.
+        + split; [exact F|]. split; [exact C' | exact R].
+      - intros E; inversion E; subst s' ev; clear E.
+        split.
+        + apply Common; [exists b; right; reflexivity|]. intros _; reflexivity.
+        + split; [exact F|]. split; [exact C'|].
+          simpl. eapply results_ok_add; eauto. }
+    destruct CI as [[e [L [M [-> ->]]]] | [[D [-> ->]] | [id [D [-> ->]]]]].
+    - (* memoised entry reused *)
+      destruct (C _ _ L) as [Ex [ev0 [b0 [I0 [P0 [C0 D0]]]]]]. simpl in Ex, P0.
+      assert (b0 = b).
+      { apply (agree_same_bytes ev0 ev p b0 b m);
+          [apply Hag; exact I0 | exact P0 | exact Sp | rewrite <- M; exact C0 | exact Sc]. }
+      subst b0. rewrite Ex. intros E. eapply Serve; eauto.
+      apply comps_ok_more; exact C.
+    - (* detection failed *)
+      intros E; inversion E; subst s' ev; clear E. split.
+      + unfold good, identity_current, producer_current, served; simpl.
+        split; [reflexivity|]. split; [reflexivity|]. split; [discriminate|].
+        split; [intros b1 m1 E1; rewrite Stp in E1; inversion E1; subst; assumption|].
+        split; [assumption|]. split; [left; reflexivity|].
+        intros b1 m1 id1 E1 D1. rewrite Stp in E1. inversion E1; subst b1 m1.
+        rewrite D in D1; discriminate.
+      + split; [exact F|]. split; [|exact R].
+        simpl. intros k1 e1 L1. rewrite clookup_cset in L1.
+        destruct (ckey_eqb k1 k); [discriminate|].
+        exact (comps_ok_more _ _ _ C _ _ L1).
+    - (* detected afresh *)
+      intros E. eapply Serve; eauto.
+      intros k1 e1 L1. rewrite clookup_cset in L1.
+      destruct (ckey_eqb k1 k) eqn:K1.
+      + apply ckey_eqb_eq in K1; subst k1. inversion L1; subst e1; simpl. split; [reflexivity|].
+        exists ev, b. split; [apply in_or_app; right; left; reflexivity|]. auto.
+      + exact (comps_ok_more _ _ _ C _ _ L1).
+  Qed.
+End Fixed.
+
+Section FixedRun.
+  Variable detect : N -> option N.
+  Variable H : N -> N -> N.
+  Variable inB : N -> Prop.
+  Variable inS : N -> Prop.
+  (* CF = "the digests are collision-free on what is in play".  It is a parameter so that
+     the statements that do not need it (the identity is current) are proved without it
+     (CF := False) by the same induction. *)
+  Variable CF : Prop.
+  Hypothesis detect_collision_free :
+    CF -> forall b1 b2 i, inB b1 -> inB b2 -> detect b1 = Some i -> detect b2 = Some i -> b1 = b2.
+  Hypothesis H_collision_free :
+    CF -> forall b1 b2 i1 i2 s1 s2, inB b1 -> inB b2 -> inS s1 -> inS s2 ->
+      detect b1 = Some i1 -> detect b2 = Some i2 -> H i1 s1 = H i2 s2 -> i1 = i2 /\ s1 = s2.
+
+  Notation Inv := (Inv detect H inB inS CF).
+  Notation good := (good detect H inB inS CF).
+  Notation op_in_play := (op_in_play inB inS).
+
+  Lemma step_inv past s o :
+    Inv past s -> op_in_play o ->
+    (forall ev, snd (step detect H false s o) = Some ev -> forall a, In a past -> agree a ev = true) ->
+    match snd (step detect H false s o) with
+    | Some ev => good ev /\ Inv (past ++ [ev]) (fst (step detect H false s o))
+    | None => Inv past (fst (step detect H false s o))
+    end.
+  Proof.
+    intros I P A. destruct o as [p b m|l t|p|p m|p src]; simpl in *.
+    - destruct I as [F [C R]]. split; [|split]; simpl; auto. apply fs_ok_fset_file; assumption.
+    - destruct I as [F [C R]]. split; [|split]; simpl; auto. apply fs_ok_fset_link; assumption.
+    - destruct I as [F [C R]]. split; [|split]; simpl; auto. apply fs_ok_fremove; assumption.
+    - destruct I as [F [C R]]. split; [|split]; simpl; auto. apply fs_ok_touch; assumption.
+    - destruct (compile detect H false s p src) as [s' ev] eqn:Hc. simpl in *.
+      eapply compile_step; eauto.
+  Qed.
+
+  Lemma run_inv ops : forall s past,
+    Forall op_in_play ops -> Inv past s ->
+    (forall a b, In a (past ++ exec detect H false s ops) ->
+                 In b (past ++ exec detect H false s ops) -> agree a b = true) ->
+    Forall good (exec detect H false s ops) /\
+    Inv (past ++ exec detect H false s ops) (final detect H false s ops).
+  Proof.
+    induction ops as [|o r IH]; intros s past P I A; simpl.
+    - split; [constructor | rewrite app_nil_r; exact I].
+    - inversion P as [|o' r' Po Pr]; subst.
+      simpl in A.
+      pose proof (step_inv past s o I Po) as St.
+      destruct (snd (step detect H false s o)) as [ev|] eqn:Sn.
+      + destruct St as [G I'].
+        { intros ev' E a Ia. inversion E; subst ev'. apply A.
+          - apply in_or_app; left; exact Ia.
+          - apply in_or_app; right; left; reflexivity. }
+        destruct (IH (fst (step detect H false s o)) (past ++ [ev]) Pr I') as [Gr Ir].
+        { intros a b Ia Ib. rewrite <- app_assoc in Ia, Ib. simpl in Ia, Ib. apply A; assumption. }
+        split; [constructor; assumption|].
+        rewrite <- app_assoc in Ir. exact Ir.
+      + assert (I' : Inv past (fst (step detect H false s o))).
+        { apply St. intros ev' E; discriminate. }
+        apply IH; assumption.
+  Qed.
+End FixedRun.
+
+(* ---------- the result cache only grows; a served request leaves its key in it ---------- *)
+
+Section Results.
+  Variable detect : N -> option N.
+  Variable H : N -> N -> N.
+  Variable legacy : bool.
+
+  Lemma compile_results s p src s' ev :
+    compile detect H legacy s p src = (s', ev) ->
+    (results s' = results s /\ (forall q, e_out ev <> OMiss q)) \/
+    (exists k b, e_key ev = Some k /\ e_out ev = OMiss b /\ rlookup k (results s) = None /\
+                 results s' = (k, b) :: results s).
+  Proof.
+    unfold compile. destruct (compiler_info detect legacy (comps s) (fsys s) p) as [c' i].
+    destruct i as [| |exe id det].
+    - intros E; inversion E; subst; simpl; left; split; [reflexivity | discriminate].
+    - intros E; inversion E; subst; simpl; left; split; [reflexivity | discriminate].
+    - destruct (stat (fsys s) exe) as [[b0 m0]|].
+      + destruct (detect b0).
+        * destruct (rlookup (H id src) (results s)) eqn:L; intros E; inversion E; subst; simpl.
+          -- left; split; [reflexivity | discriminate].
+          -- right. exists (H id src), b0. auto.
+        * intros E; inversion E; subst; simpl; left; split; [reflexivity | discriminate].
+      + intros E; inversion E; subst; simpl; left; split; [reflexivity | discriminate].
+  Qed.
+
+  Lemma compile_hit s p src s' ev k v :
+    compile detect H legacy s p src = (s', ev) ->
+    e_key ev = Some k -> rlookup k (results s) = Some v -> served ev <> None -> e_out ev = OHit v.
+  Proof.
+    unfold compile. destruct (compiler_info detect legacy (comps s) (fsys s) p) as [c' i].
+    destruct i as [| |exe id det].
+    - intros E; inversion E; subst; simpl; discriminate.
+    - intros E; inversion E; subst; simpl; discriminate.
+    - destruct (stat (fsys s) exe) as [[b0 m0]|].
+      + destruct (detect b0).
+        * destruct (rlookup (H id src) (results s)) eqn:L; intros E; inversion E; subst; simpl;
+            intros K; inversion K; subst k; intros L'; rewrite L in L'; inversion L'; subst; auto.
+        * intros E; inversion E; subst; unfold served; simpl. intros _ _ C; contradiction C; reflexivity.
+      + intros E; inversion E; subst; unfold served; simpl. intros _ _ C; contradiction C; reflexivity.
+  Qed.
+
+  Lemma compile_stores s p src s' ev k :
+    compile detect H legacy s p src = (s', ev) ->
+    e_key ev = Some k -> served ev <> None -> exists v, rlookup k (results s') = Some v.
+  Proof.
+    unfold compile. destruct (compiler_info detect legacy (comps s) (fsys s) p) as [c' i].
+    destruct i as [| |exe id det].
+    - intros E; inversion E; subst; simpl; discriminate.
+    - intros E; inversion E; subst; simpl; discriminate.
+    - destruct (stat (fsys s) exe) as [[b0 m0]|].
+      + destruct (detect b0).
+        * destruct (rlookup (H id src) (results s)) eqn:L; intros E; inversion E; subst; simpl;
+            intros K; inversion K; subst k; intros _.
+          -- eexists; exact L.
+          -- rewrite N.eqb_refl. eexists; reflexivity.
+        * intros E; inversion E; subst; unfold served; simpl. intros _ C; contradiction C; reflexivity.
+      + intros E; inversion E; subst; unfold served; simpl. intros _ C; contradiction C; reflexivity.
+  Qed.
+
+  Lemma results_mono_step s o k v :
+    rlookup k (results s) = Some v -> rlookup k (results (fst (step detect H legacy s o))) = Some v.
+  Proof.
+    intros L. destruct o as [p b m|l t|p|p m|p src]; simpl; try exact L.
+    destruct (compile detect H legacy s p src) as [s' ev] eqn:Hc. simpl.
+    destruct (compile_results _ _ _ _ _ Hc) as [[-> _] | [k0 [b0 [_ [_ [N0 ->]]]]]]; [exact L|].
+    simpl. destruct (k =? k0) eqn:E; [|exact L].
+    apply N.eqb_eq in E; subst k0. rewrite L in N0; discriminate.
+  Qed.
+
+  Lemma results_mono s ops k v :
+    rlookup k (results s) = Some v -> rlookup k (results (final detect H legacy s ops)) = Some v.
+  Proof.
+    revert s; induction ops as [|o r IH]; simpl; intros s L; [exact L|].
+    apply IH. apply results_mono_step; exact L.
+  Qed.
+End Results.
+
+(* ---------- closing: from the boolean premises to the theorems ---------- *)
+
+Lemma flookup_fs_bytes p f b m : flookup p f = Some (File b m) -> In b (fs_bytes f).
+Proof.
+  induction f as [|[q n] f IH]; simpl; [discriminate|].
+  destruct (path_eqb p q).
+  - intros E; inversion E; subst n. simpl. left; reflexivity.
+  - intros E. apply in_or_app; right. apply IH; exact E.
+Qed.
+
+Section Closed.
+  Variable detect : N -> option N.
+  Variable H : N -> N -> N.
+  Variable f0 : fs.
+  Variable ops : list op.
+
+  Let inB (b : N) : Prop := In b (bytes_in_play f0 ops).
+  Let inS (s : N) : Prop := In s (srcs_in_play ops).
+  Let CFb : Prop := collision_free_in_play detect H f0 ops = true.
+
+  Lemma cf_pair b1 b2 i1 i2 :
+    CFb -> inB b1 -> inB b2 -> detect b1 = Some i1 -> detect b2 = Some i2 ->
+    (i1 = i2 -> b1 = b2) /\
+    (forall s1 s2, inS s1 -> inS s2 -> H i1 s1 = H i2 s2 -> i1 = i2 /\ s1 = s2).
+  Proof.
+    unfold CFb, collision_free_in_play, inB, inS. intros C B1 B2 D1 D2.
+    rewrite forallb_forall in C. specialize (C b1 B1).
+    rewrite forallb_forall in C. specialize (C b2 B2).
+    rewrite D1, D2 in C. apply andb_true_iff in C as [C1 C2]. split.
+    - intros ->. rewrite N.eqb_refl in C1. simpl in C1. apply N.eqb_eq; exact C1.
+    - intros s1 s2 S1 S2 E.
+      rewrite forallb_forall in C2. specialize (C2 s1 S1).
+      rewrite forallb_forall in C2. specialize (C2 s2 S2).
+      rewrite E, N.eqb_refl in C2. simpl in C2.
+      apply andb_true_iff in C2 as [A B]. apply N.eqb_eq in A, B. auto.
+  Qed.
+
+  Lemma cf_detect :
+    CFb -> forall b1 b2 i, inB b1 -> inB b2 -> detect b1 = Some i -> detect b2 = Some i -> b1 = b2.
+  Proof. intros C b1 b2 i B1 B2 D1 D2. destruct (cf_pair b1 b2 i i C B1 B2 D1 D2) as [A _]. auto. Qed.
+
+  Lemma cf_H :
+    CFb -> forall b1 b2 i1 i2 s1 s2, inB b1 -> inB b2 -> inS s1 -> inS s2 ->
+      detect b1 = Some i1 -> detect b2 = Some i2 -> H i1 s1 = H i2 s2 -> i1 = i2 /\ s1 = s2.
+  Proof.
+    intros C b1 b2 i1 i2 s1 s2 B1 B2 S1 S2 D1 D2 E.
+    destruct (cf_pair b1 b2 i1 i2 C B1 B2 D1 D2) as [_ A]. auto.
+  Qed.
+
+  Lemma ops_all_in_play : Forall (op_in_play inB inS) ops.
+  Proof.
+    apply Forall_forall. intros o Io. destruct o as [p b m|l t|p|p m|p src]; simpl; auto.
+    - unfold inB, bytes_in_play. apply in_or_app; right. apply in_flat_map.
+      exists (Swap p b m). split; [exact Io | simpl; auto].
+    - unfold inS, srcs_in_play. apply in_flat_map.
+      exists (Compile p src). split; [exact Io | simpl; auto].
+  Qed.
+
+  Lemma start_inv : Inv detect H inB inS CFb [] (start f0).
+  Proof.
+    split; [|split]; simpl.
+    - intros p b m L. unfold inB, bytes_in_play. apply in_or_app; left.
+      eapply flookup_fs_bytes; exact L.
+    - intros k e L; discriminate.
+    - intros _ k prod L; discriminate.
+  Qed.
+
+  Hypothesis WF : wf_history detect H false f0 ops = true.
+
+  Lemma whole_run :
+    Forall (good detect H inB inS CFb) (exec detect H false (start f0) ops) /\
+    Inv detect H inB inS CFb (exec detect H false (start f0) ops) (final detect H false (start f0) ops).
+  Proof.
+    apply (run_inv detect H inB inS CFb cf_detect cf_H ops (start f0) [] ops_all_in_play start_inv).
+    simpl. intros a b Ia Ib. apply (tracks_agree _ WF); assumption.
+  Qed.
+
+  Lemma event_good e : In e (exec detect H false (start f0) ops) -> good detect H inB inS CFb e.
+  Proof. intros I. destruct whole_run as [G _]. rewrite Forall_forall in G. auto. Qed.
+
+  (* C12_identity_is_current *)
+  Lemma identity_is_current e :
+    In e (exec detect H false (start f0) ops) -> identity_current detect e = true.
+  Proof. intros I. apply (event_good e I). Qed.
+
+  (* C12_identity_is_current, spelled out *)
+  Lemma identity_spelled e id :
+    In e (exec detect H false (start f0) ops) -> e_id e = Some id ->
+    exists b m, e_cur e = Some (b, m) /\ detect b = Some id.
+  Proof.
+    intros I E. pose proof (identity_is_current e I) as C. unfold identity_current in C.
+    rewrite E in C. destruct (e_cur e) as [[b m]|]; [|discriminate].
+    destruct (detect b) as [id'|] eqn:D; [|discriminate].
+    apply N.eqb_eq in C; subst id'. exists b, m; auto.
+  Qed.
+
+  Lemma served_working e :
+    In e (exec detect H false (start f0) ops) ->
+    forall b m id, e_cur e = Some (b, m) -> detect b = Some id ->
+    served e <> None /\ e_key e = Some (H id (e_src e)).
+  Proof. intros I. apply (event_good e I). Qed.
+
+  (* C12_identity_is_current, all three readings *)
+  Lemma identity_full e :
+    In e (exec detect H false (start f0) ops) ->
+    identity_current detect e = true /\
+    (forall id, e_id e = Some id -> exists b m, e_cur e = Some (b, m) /\ detect b = Some id) /\
+    (forall b m id, e_cur e = Some (b, m) -> detect b = Some id ->
+                    served e <> None /\ e_key e = Some (H id (e_src e))).
+  Proof.
+    intros I. split; [exact (identity_is_current e I)|]. split.
+    - intros id. exact (identity_spelled e id I).
+    - exact (served_working e I).
+  Qed.
+
+  (* C12_no_cross_binary_results *)
+  Lemma no_cross e prod :
+    CFb -> In e (exec detect H false (start f0) ops) -> served e = Some prod ->
+    exists m, e_cur e = Some (prod, m).
+  Proof.
+    intros cf I Sv. destruct (event_good e I) as [_ [P _]]. specialize (P cf).
+    unfold producer_current in P. rewrite Sv in P.
+    destruct (e_cur e) as [[b m]|]; [|discriminate].
+    apply N.eqb_eq in P; subst. exists m; reflexivity.
+  Qed.
+
+  (* C12_distinct_binaries_never_share *)
+  Lemma distinct_never_share e1 e2 b1 m1 b2 m2 k1 k2 :
+    CFb ->
+    In e1 (exec detect H false (start f0) ops) -> In e2 (exec detect H false (start f0) ops) ->
+    e_cur e1 = Some (b1, m1) -> e_cur e2 = Some (b2, m2) -> b1 <> b2 ->
+    e_key e1 = Some k1 -> e_key e2 = Some k2 -> k1 <> k2.
+  Proof.
+    intros cf I1 I2 C1 C2 NE K1 K2 EK.
+    destruct (event_good e1 I1) as [_ [_ [Ky1 [B1 [S1 _]]]]].
+    destruct (event_good e2 I2) as [_ [_ [Ky2 [B2 [S2 _]]]]].
+    destruct (Ky1 _ K1) as [i1 [Ei1 ->]]. destruct (Ky2 _ K2) as [i2 [Ei2 ->]].
+    destruct (identity_spelled e1 i1 I1 Ei1) as [b1' [m1' [C1' D1]]].
+    destruct (identity_spelled e2 i2 I2 Ei2) as [b2' [m2' [C2' D2]]].
+    rewrite C1 in C1'; inversion C1'; subst b1' m1'.
+    rewrite C2 in C2'; inversion C2'; subst b2' m2'.
+    destruct (cf_H cf b1 b2 i1 i2 (e_src e1) (e_src e2) (B1 _ _ C1) (B2 _ _ C2) S1 S2 D1 D2 EK) as [-> _].
+    apply NE. eapply (cf_detect cf); eauto.
+  Qed.
+
+  (* C12_swap_back *)
+  Lemma swap_back h1 p src h2 p' e1 e2 A id m1 m2 :
+    CFb ->
+    ops = h1 ++ Compile p src :: h2 ++ [Compile p' src] ->
+    snd (step detect H false (final detect H false (start f0) h1) (Compile p src)) = Some e1 ->
+    snd (step detect H false (final detect H false (start f0) (h1 ++ Compile p src :: h2))
+              (Compile p' src)) = Some e2 ->
+    detect A = Some id -> e_cur e1 = Some (A, m1) -> e_cur e2 = Some (A, m2) ->
+    e_out e1 <> OFail /\ e_out e2 = OHit A.
+  Proof.
+    intros cf Eo S1 S2 D C1 C2.
+    set (sa := final detect H false (start f0) h1) in *.
+    set (s2 := final detect H false (start f0) (h1 ++ Compile p src :: h2)) in *.
+    simpl in S1, S2.
+    destruct (compile detect H false sa p src) as [s1 e1'] eqn:Hc1. simpl in S1. inversion S1; subst e1'.
+    destruct (compile detect H false s2 p' src) as [s3 e2'] eqn:Hc2. simpl in S2. inversion S2; subst e2'.
+    assert (Ev : exec detect H false (start f0) ops =
+                 exec detect H false (start f0) h1 ++ e1 :: exec detect H false s1 h2 ++ [e2]).
+    { rewrite Eo. rewrite exec_app. fold sa. f_equal. simpl. rewrite Hc1. simpl. f_equal.
+      rewrite exec_app. f_equal.
+      assert (Es2 : final detect H false s1 h2 = s2).
+      { unfold s2. rewrite final_app. fold sa. simpl. rewrite Hc1. reflexivity. }
+      rewrite Es2. simpl. rewrite Hc2. reflexivity. }
+    assert (I1 : In e1 (exec detect H false (start f0) ops)).
+    { rewrite Ev. apply in_or_app; right; left; reflexivity. }
+    assert (I2 : In e2 (exec detect H false (start f0) ops)).
+    { rewrite Ev. apply in_or_app; right; right. apply in_or_app; right; left; reflexivity. }
+    destruct (compile_shape _ _ _ _ _ _ _ _ Hc1) as [_ [Sr1 _]].
+    destruct (compile_shape _ _ _ _ _ _ _ _ Hc2) as [_ [Sr2 _]].
+    destruct (served_working e1 I1 A m1 id C1 D) as [Sv1 K1]. rewrite Sr1 in K1.
+    destruct (served_working e2 I2 A m2 id C2 D) as [Sv2 K2]. rewrite Sr2 in K2.
+    destruct (compile_stores _ _ _ _ _ _ _ _ _ Hc1 K1 Sv1) as [v L1].
+    assert (L2 : rlookup (H id src) (results s2) = Some v).
+    { unfold s2. rewrite final_app. fold sa. simpl. rewrite Hc1. simpl. apply results_mono; exact L1. }
+    pose proof (compile_hit _ _ _ _ _ _ _ _ _ _ Hc2 K2 L2 Sv2) as Out.
+    split.
+    - intros F. unfold served in Sv1. rewrite F in Sv1. apply Sv1; reflexivity.
+    - destruct (no_cross e2 v cf I2) as [m' C2'].
+      { unfold served. rewrite Out. reflexivity. }
+      rewrite C2 in C2'; inversion C2'; subst. exact Out.
+  Qed.
+End Closed.
+
+(* ---------- witnesses (concrete digests: bytes ids < 100 are working compilers) ---------- *)
+
+Definition detect_w (b : N) : option N := if b <? 100 then Some (1000 + b) else None.
+Definition H_w (id src : N) : N := id * 1000 + src.
+
+(* the documented limit: same mtime, different bytes *)
+Definition ops_same_mtime : list op :=
+  [Swap (0, 0) 1 5; Compile (0, 0) 0; Swap (0, 0) 2 5; Compile (0, 0) 0].
+
+(* a link named cc retargeted between two differently named binaries with equal mtimes *)
+Definition ops_same_mtime_link : list op :=
+  [Swap (2, 0) 1 5; Swap (3, 0) 2 5; Retarget (0, 1) (2, 0); Compile (0, 1) 0;
+   Retarget (0, 1) (3, 0); Compile (0, 1) 0].
+
+(* the defect in the code as found: two links named gcc to one binary, the first retargeted *)
+Definition ops_shared_entry : list op :=
+  [Swap (2, 0) 1 5; Swap (3, 0) 2 9; Retarget (0, 0) (2, 0); Retarget (1, 0) (2, 0);
+   Compile (0, 0) 0; Retarget (0, 0) (3, 0); Compile (1, 0) 1].
+
+(* a history inside the premise: swap, swap back, links, a non-compiler *)
+Definition ops_example : list op :=
+  [Swap (0, 0) 1 5; Compile (0, 0) 0; Swap (0, 0) 2 6; Compile (0, 0) 0; Swap (0, 0) 1 5;
+   Compile (0, 0) 0; Retarget (1, 0) (0, 0); Compile (1, 0) 0; Swap (0, 0) 100 7; Compile (1, 0) 0;
+   Retarget (1, 0) (2, 0); Swap (2, 0) 2 6; Compile (1, 0) 0].
+
+Lemma same_mtime_refuted :
+  collision_free_in_play detect_w H_w [] ops_same_mtime = true /\
+  wf_history detect_w H_w false [] ops_same_mtime = false /\
+  existsb (fun e => negb (identity_current detect_w e) && negb (producer_current e))
+          (exec detect_w H_w false (start []) ops_same_mtime) = true.
+Proof. vm_compute. auto. Qed.
+
+Lemma same_mtime_link_refuted :
+  collision_free_in_play detect_w H_w [] ops_same_mtime_link = true /\
+  wf_history detect_w H_w false [] ops_same_mtime_link = false /\
+  existsb (fun e => negb (identity_current detect_w e) && negb (producer_current e))
+          (exec detect_w H_w false (start []) ops_same_mtime_link) = true.
+Proof. vm_compute. auto. Qed.
+
+Lemma shared_entry_refuted :
+  collision_free_in_play detect_w H_w [] ops_shared_entry = true /\
+  wf_history detect_w H_w true [] ops_shared_entry = true /\
+  existsb (fun e => identity_current detect_w e && negb (producer_current e))
+          (exec detect_w H_w true (start []) ops_shared_entry) = true /\
+  forallb (fun e => identity_current detect_w e && producer_current e)
+          (exec detect_w H_w false (start []) ops_shared_entry) = true.
+Proof. vm_compute. auto. Qed.
+
+Lemma example_in_premise :
+  collision_free_in_play detect_w H_w [] ops_example = true /\
+  wf_history detect_w H_w false [] ops_example = true /\
+  map e_out (exec detect_w H_w false (start []) ops_example) =
+    [OMiss 1; OMiss 2; OHit 1; OHit 1; OUnsupported; OHit 2].
+Proof. vm_compute. auto. Qed.
